@@ -69,6 +69,15 @@ def adjoint_identity(c, backing, dom, rng, m, n):
     if np.shape(Mx) == (m, n) and np.shape(TM) == (n, m):
         c.eq('T_matrix_is_transpose', TM, Mx.T)
     c.eq('matmul_is_forward', model @ x, Fx)
+    # matrix-backed models also take a plain 2-D array of column vectors (as many columns as rows: the shape that cannot tell A^T Y from Y A apart by itself)
+    if backing in ('matrix', 'sparse') and dom in ('default', 'Continuous1D') and rng in ('default', 'Continuous1D'):
+        Yb = c.vec('Yb', m * m).reshape(m, m); Xb = c.vec('Xb', n * n).reshape(n, n)
+        AYb = np.asarray(model.adjoint(Yb)); FXb = np.asarray(model.forward(Xb))
+        c.holds('adjoint_of_a_square_batch_has_one_column_per_vector', np.shape(AYb) == (n, m), note=str(np.shape(AYb)))
+        if np.shape(AYb) == (n, m):
+            for k in range(m): c.eq(f'adjoint_of_batch_column[{k}]_is_adjoint_of_that_vector', AYb[:, k], model.adjoint(Yb[:, k]))
+        if np.shape(FXb) == (m, n):
+            for k in range(n): c.eq(f'forward_of_batch_column[{k}]_is_forward_of_that_vector', FXb[:, k], model.forward(Xb[:, k]))
     # a collection of vectors goes through the same maps column by column (forward and adjoint)
     from cuqi.samples import Samples
     X = c.vec('X', 2 * n).reshape(n, 2); Y = c.vec('Y', 2 * m).reshape(m, 2)
